@@ -1,3 +1,229 @@
-/-! C09 model (stub) -/
+/-!
+# C09 / C10 model: service configuration → pipeline component graph → data flow
+
+Mirrors `service/internal/graph/graph.go`:
+
+* `createNodes`  → `usedConns`, `connValid` (connector support validation), `pipeRecvNodes`, `pipeExpNodes`
+* `createEdges`  → `pipeEdges`, `edges`
+* `buildComponents` → `build` (`topo.Sort` error ⇒ cycle error; gonum is outside the model: its error condition
+  is modelled by the executable `sortable`, which `Props/C09.lean` relates to closed walks)
+* run-time behaviour of the built consumers (receiver → fan-out → capabilities → processors… → fan-out →
+  exporters / connector → router → all next pipelines) → `deliver`
+
+Node identity is *data* (`Node`), exactly the attribute tuples hashed by `service/internal/attribute`:
+receiver/exporter = (signal, component id); processor = (pipeline id, component id);
+connector = (exporter-side signal, receiver-side signal, component id); capabilities/fan-out = pipeline id.
+(Injectivity of the fnv hash on the keys that occur is checked by the harness on every run.)
+
+Core Lean only.  `Model/C10.lean` imports this file.
+-/
 namespace OtelVerif.C09
+
+inductive Sig | traces | metrics | logs | profiles
+deriving DecidableEq, Repr
+
+def Sig.toNat : Sig → Nat
+  | .traces => 0 | .metrics => 1 | .logs => 2 | .profiles => 3
+
+def Sig.ofNat? : Nat → Option Sig
+  | 0 => some .traces | 1 => some .metrics | 2 => some .logs | 3 => some .profiles | _ => none
+
+def Sig.all : List Sig := [.traces, .metrics, .logs, .profiles]
+
+/-- `component.ID` (type + name), abstracted to a number -/
+abbrev CompId := Nat
+
+/-- `pipeline.ID` = signal + name -/
+structure PipeId where
+  sig : Sig
+  name : Nat
+deriving DecidableEq, Repr
+
+/-- `pipelines.PipelineConfig` together with its key in `pipelines.Config` -/
+structure Pipeline where
+  id : PipeId
+  recv : List CompId
+  procs : List CompId
+  exps : List CompId
+deriving DecidableEq, Repr
+
+/-- a configured connector and the (exporter-side signal, receiver-side signal) pairs for which its factory
+reports a stability level other than `Undefined` (`connectorStability`) -/
+structure Conn where
+  id : CompId
+  supp : List (Sig × Sig)
+deriving DecidableEq, Repr
+
+structure Cfg where
+  pipes : List Pipeline
+  conns : List Conn
+deriving Repr
+
+/-- `set.ConnectorBuilder.IsConfigured(id)` -/
+def Cfg.isConn (cfg : Cfg) (c : CompId) : Bool := cfg.conns.any (fun k => k.id == c)
+
+/-- `connectorStability(factory, expType, recType) != StabilityLevelUndefined` -/
+def Cfg.supp (cfg : Cfg) (c : CompId) (es rs : Sig) : Bool :=
+  cfg.conns.any (fun k => k.id == c && k.supp.contains (es, rs))
+
+/-- what `pipelines.Config` (a Go map) and `PipelineConfig.Validate` guarantee -/
+structure Cfg.WF (cfg : Cfg) : Prop where
+  ids_nodup : (cfg.pipes.map (·.id)).Nodup
+  procs_nodup : ∀ p ∈ cfg.pipes, p.procs.Nodup
+
+inductive Node
+  | recv (s : Sig) (id : CompId)
+  | proc (p : PipeId) (id : CompId)
+  | exp (s : Sig) (id : CompId)
+  | conn (es rs : Sig) (id : CompId)
+  | cap (p : PipeId)
+  | fanout (p : PipeId)
+deriving DecidableEq, Repr
+
+def Node.isExp : Node → Bool
+  | .exp _ _ => true
+  | _ => false
+
+/-- nodes that are `component.Component`s (everything except capabilities / fan-out) -/
+def Node.isComp : Node → Bool
+  | .cap _ => false
+  | .fanout _ => false
+  | _ => true
+
+/-- keep one copy of every element (Go map keyed by node id) -/
+def dedup {α : Type} [DecidableEq α] : List α → List α
+  | [] => []
+  | a :: l => if a ∈ l then dedup l else a :: dedup l
+
+/-! ## createNodes -/
+
+/-- `connectorsAsExporter[c]` -/
+def asExp (cfg : Cfg) (c : CompId) : List Pipeline := cfg.pipes.filter (fun p => c ∈ p.exps)
+
+/-- `connectorsAsReceiver[c]` -/
+def asRecv (cfg : Cfg) (c : CompId) : List Pipeline := cfg.pipes.filter (fun p => c ∈ p.recv)
+
+/-- `expTypes[p.sig]` ends up `true`: some receiver-side pipeline has a supported signal pair -/
+def expOk (cfg : Cfg) (c : CompId) (p : Pipeline) : Bool := (asRecv cfg c).any (fun q => cfg.supp c p.id.sig q.id.sig)
+
+/-- `recTypes[q.sig]` ends up `true` -/
+def recvOk (cfg : Cfg) (c : CompId) (q : Pipeline) : Bool := (asExp cfg c).any (fun p => cfg.supp c p.id.sig q.id.sig)
+
+def connValid (cfg : Cfg) (c : CompId) : Bool :=
+  (asExp cfg c).all (expOk cfg c) && (asRecv cfg c).all (recvOk cfg c)
+
+/-- the `connectors` set: every id listed as receiver or exporter of some pipeline that is a configured connector -/
+def usedConns (cfg : Cfg) : List CompId :=
+  dedup (cfg.pipes.flatMap (fun p => (p.recv ++ p.exps).filter cfg.isConn))
+
+/-- `pipe.receivers` after `createNodes`: plain receivers by (signal, id); connector nodes for every
+supported (exporter pipeline, this pipeline) pair -/
+def pipeRecvNodes (cfg : Cfg) (q : Pipeline) : List Node :=
+  dedup (q.recv.flatMap (fun r =>
+    if cfg.isConn r then
+      ((asExp cfg r).filter (fun p => cfg.supp r p.id.sig q.id.sig)).map (fun p => Node.conn p.id.sig q.id.sig r)
+    else [Node.recv q.id.sig r]))
+
+/-- `pipe.exporters` after `createNodes` -/
+def pipeExpNodes (cfg : Cfg) (p : Pipeline) : List Node :=
+  dedup (p.exps.flatMap (fun e =>
+    if cfg.isConn e then
+      ((asRecv cfg e).filter (fun q => cfg.supp e p.id.sig q.id.sig)).map (fun q => Node.conn p.id.sig q.id.sig e)
+    else [Node.exp p.id.sig e]))
+
+def procNodes (p : Pipeline) : List Node := p.procs.map (Node.proc p.id)
+
+/-! ## createEdges -/
+
+/-- capabilities → processors… → fan-out -/
+def chain : Node → List Node → Node → List (Node × Node)
+  | a, [], z => [(a, z)]
+  | a, b :: l, z => (a, b) :: chain b l z
+
+def pipeEdges (cfg : Cfg) (p : Pipeline) : List (Node × Node) :=
+  (pipeRecvNodes cfg p).map (fun r => (r, Node.cap p.id)) ++
+  chain (Node.cap p.id) (procNodes p) (Node.fanout p.id) ++
+  (pipeExpNodes cfg p).map (fun e => (Node.fanout p.id, e))
+
+def edges (cfg : Cfg) : List (Node × Node) := cfg.pipes.flatMap (pipeEdges cfg)
+
+def pipeNodes (cfg : Cfg) (p : Pipeline) : List Node :=
+  pipeRecvNodes cfg p ++ [Node.cap p.id] ++ procNodes p ++ [Node.fanout p.id] ++ pipeExpNodes cfg p
+
+/-- nodes of `componentGraph` -/
+def nodes (cfg : Cfg) : List Node := dedup (cfg.pipes.flatMap (pipeNodes cfg))
+
+/-- `componentGraph.From(n)` for an edge set -/
+def succOf (es : List (Node × Node)) (n : Node) : List Node :=
+  dedup (es.filterMap (fun e => if e.1 = n then some e.2 else none))
+
+def succ (cfg : Cfg) : Node → List Node := succOf (edges cfg)
+
+/-! ## `topo.Sort` succeeds iff the graph has no directed cycle
+
+gonum is outside the model.  Its success condition is modelled by peeling: round `k+1` marks every node all
+of whose successors were marked in rounds `≤ k` (sinks first — the order in which `buildComponents` needs the
+consumers); the sort succeeds iff every node is marked after `|nodes|` rounds.  `Props/C09.lean` proves that a
+marked node lies on no closed walk and that `deliver` terminates on it. -/
+
+def peelStep (sc : Node → List Node) (ns done : List Node) : List Node :=
+  done ++ ns.filter (fun n => !(decide (n ∈ done)) && (sc n).all (fun m => decide (m ∈ done)))
+
+def peel (sc : Node → List Node) (ns : List Node) : Nat → List Node
+  | 0 => []
+  | k + 1 => peelStep sc ns (peel sc ns k)
+
+def sortable (sc : Node → List Node) (ns : List Node) : Bool :=
+  ns.all (fun n => decide (n ∈ peel sc ns ns.length))
+
+/-! ## Build -/
+
+inductive BuildErr
+  | connector   -- createNodes: connector used without a supported counterpart
+  | cycle       -- buildComponents: topo.Sort failed
+deriving DecidableEq, Repr
+
+def createNodesOk (cfg : Cfg) : Bool := (usedConns cfg).all (connValid cfg)
+
+/-- `graph.Build`: the error class, or nothing when the graph is built -/
+def build (cfg : Cfg) : Option BuildErr :=
+  if !createNodesOk cfg then some .connector
+  else
+    let es := edges cfg   -- computed once (`succ cfg = succOf (edges cfg)` by definition)
+    if !sortable (succOf es) (nodes cfg) then some .cycle
+    else none
+
+/-! ## data flow through the built consumers
+
+Every consumer hands the payload to each of its next consumers once (receiver: `fanoutconsumer` over its
+capabilities nodes; capabilities node / processor: the single next; fan-out node: every exporter/connector
+node; connector: its router = every next pipeline's capabilities node); an exporter keeps it.  `deliver`
+is that recursion; it needs fuel because it is only well-founded on an acyclic graph (`none` = out of fuel).
+The result lists, for each delivery, the nodes visited after `n` (the last one is the exporter). -/
+
+def collect (f : Node → Option (List (List Node))) : List Node → Option (List (List Node))
+  | [] => some []
+  | m :: ms =>
+    match f m, collect f ms with
+    | some a, some b => some (a.map (m :: ·) ++ b)
+    | _, _ => none
+
+def deliver (sc : Node → List Node) : Nat → Node → Option (List (List Node))
+  | 0, _ => none
+  | k + 1, n => if n.isExp then some [[]] else collect (deliver sc k) (sc n)
+
+/-- what an instrumented payload shows at the exporter: processors and connectors visited, in order -/
+def trailOf (w : List Node) : List Node :=
+  w.filter (fun n => match n with | .proc _ _ => true | .conn _ _ _ => true | _ => false)
+
+/-! ## config-level reference (no graph): the routes the configuration describes -/
+
+/-- pipelines `q` that receive from connector `c` used as exporter in `p` (supported signal pair) -/
+def nextPipes (cfg : Cfg) (p : Pipeline) (c : CompId) : List Pipeline :=
+  (asRecv cfg c).filter (fun q => cfg.supp c p.id.sig q.id.sig)
+
+/-- the pipeline-level "feeds" relation of connector usage -/
+def feeds (cfg : Cfg) (p q : Pipeline) : Bool :=
+  p.exps.any (fun c => cfg.isConn c && (c ∈ q.recv) && cfg.supp c p.id.sig q.id.sig)
+
 end OtelVerif.C09
